@@ -425,10 +425,17 @@ theorem pushC_eq (asr : Bool) {s : State} (hd : Dom s) {w t : Int} (hw : 0 < w) 
   have e2 : mulI32 "getDisplacement: 2 * width" 2 w = .ok (2 * w) := chk32_ok' (by omega) (by omega)
   have e3 : addI32 "getDisplacement: 2 * width + min(slope,0)" (2 * w) (min (scanOf s w t).slope 0) =
       .ok (2 * w + min (scanOf s w t).slope 0) := chk32_ok' (by omega) (by omega)
-  simp only [pushC, coreC_eq asr hd hw hfit ht1 ht2, retC_eq hd hw hfit ht1 ht2, e1, e2, e3, bind, Except.bind, pure,
-    Except.pure, push, displacement_eq]
-  rfl
-
+  have e4 : ∀ q1, newBoundC w ⟨t - s.used, finOf s w t, cost1Of s w t, scanOf s w t⟩ q1 =
+      .ok (pqInsert ⟨min (t - s.used) (finOf s w t), 2 * w + min (scanOf s w t).slope 0⟩ q1) := by
+    intro q1
+    simp only [newBoundC, e2, e3, bind, Except.bind, pure, Except.pure]
+  by_cases hb' : t - s.used > s.b
+  · simp only [pushC, coreC_eq asr hd hw hfit ht1 ht2, retC_eq hd hw hfit ht1 ht2, e1, e4, hb', if_true, bind,
+      Except.bind, pure, Except.pure, push, displacement_eq]
+    rfl
+  · simp only [pushC, coreC_eq asr hd hw hfit ht1 ht2, retC_eq hd hw hfit ht1 ht2, e1, hb', if_false, bind,
+      Except.bind, pure, Except.pure, push, displacement_eq]
+    rfl
 
 /-! ### the invariant is preserved -/
 
